@@ -35,6 +35,8 @@ func main() {
 		for i := 1; i < e.u.nextTag; i++ {
 			fmt.Println(i, typeStr(e.u.tagTypes[i]))
 		}
+	case "names":
+		os.Exit(cmdNames(os.Args[2:]))
 	case "replay":
 		os.Exit(cmdReplay(os.Args[2:]))
 	case "selftest":
